@@ -18,9 +18,22 @@ const VALS: &[&str] = &["1", "", "x=y", "a%20b", "é", "?", "v#", "foo", "==", "
 
 thread_local! { static RULE_NAMES: std::cell::RefCell<Vec<String>> = std::cell::RefCell::new(vec![]); static RULE_BASE: std::cell::RefCell<Option<String>> = std::cell::RefCell::new(None); }
 fn query(r: &mut Rng) -> String {
-    let n = r.range(0, 5);
+    // one query in 25 has 120-140 arguments (count boundary: the tokenizer's buffer holds 128)
+    let n = if r.chance(1, 25) { r.range(120, 141) } else { r.range(0, 5) };
     let mut parts = vec![];
     let names: Vec<String> = RULE_NAMES.with(|n| n.borrow().clone());
+    if n >= 120 {
+        // filler arguments of one letter and one digit (no index token, so the URL stays below the
+        // tokenizer's cut-off), the arguments that rules name at the very end
+        for i in 0..n - 3 {
+            parts.push(match i % 4 { 0 => "a=1".to_string(), 1 => "b=".to_string(), 2 => "c".to_string(), _ => format!("{}={}", ["a", "b", "x"][i % 3], i % 10) });
+        }
+        for _ in 0..3 {
+            let k: &str = if !names.is_empty() && r.chance(3, 4) { &names[r.below(names.len())] } else { r.pick(KEYS) };
+            parts.push(format!("{}={}", k, r.pick(&["1", "x", "", "7"])));
+        }
+        return parts.join("&");
+    }
     for _ in 0..n {
         // half of the keys are parameter names of rules of the list at hand
         let k: &str = if !names.is_empty() && r.chance(1, 2) { &names[r.below(names.len())] } else { r.pick(KEYS) };
